@@ -181,6 +181,11 @@ fn run_one_inner(args: &Args, prof: &Profile, run: u64, rep: &mut Report, make_m
 		seed[9..17].copy_from_slice(&run.to_le_bytes());
 		let mut user = user_config(&mut rng, ctype);
 		user.channel_config.max_dust_htlc_exposure = dust_exposure;
+		if prof.pay_workload {
+			// LSP-style flows: forwards over intercept scids, recipients that accept a withheld fee
+			user.htlc_interception_flags = 1;
+			user.channel_config.accept_underpaying_htlcs = true;
+		}
 		cfgs.push(NodeCfg { user, deferred: prof.allow_deferred && rng.chance(1, 4), seed, epoch: 1000 * (i as u64 + 1), mup_max_pending: if prof.mup_shadow { Some(*rng.pick(&[0u64, 1, 2, 3, 5, 10])) } else { None } });
 	}
 	let label = format!("seed={} run={} type={:?} nodes={} fee={}", args.seed, run, ctype, prof.nodes, fee_now);
@@ -210,6 +215,13 @@ fn run_one_inner(args: &Args, prof: &Profile, run: u64, rep: &mut Report, make_m
 			// serialized monitor_update_blocked_actions. Release builds read the manager fine. Observation.
 			outcome = "ldk debug assertion (FreeDuplicateClaimImmediately found in the persisted action queue)".to_string();
 			rep.count("ldk_debug_assert_free_duplicate_claim_in_persisted_queue");
+		},
+		Err(p) if p.contains("skimmed_fee_msat must always be included in total_fee_earned_msat") => {
+			// Debug-only assertion when building PaymentForwarded for an intercepted forward that withheld a fee
+			// and whose upstream channel is closed: total_fee_earned_msat is None (on-chain claim, value unknown)
+			// and the assertion compares Some(skim) <= None. Release builds emit the event. Observation.
+			outcome = "ldk debug assertion (skimmed fee vs unknown total fee)".to_string();
+			rep.count("ldk_debug_assert_skimmed_fee_with_unknown_total_fee");
 		},
 		Err(p) if p.contains("assertion failed: found_blocker") => {
 			// Debug-only assertion in ChannelManager::claim_mpp_part / claim_funds_from_hop: a forwarded HTLC's
@@ -686,6 +698,7 @@ fn drive(sim: &mut Sim, prof: &Profile, rng: &mut Rng, rep: &mut Report, ctype: 
 					4 | 5 if staged.is_none() => SendOpts { declared_total: Some(amt * 2), min_value: Some(amt * 2), class: "staged-mpp", ..Default::default() },
 					_ => match staged {
 						Some(k) => SendOpts { reg: Some(sim.w.payments[k].reg), declared_total: Some(sim.w.payments[k].declared_total), class: "staged-mpp-2", ..Default::default() },
+						None if chans.len() == 2 => SendOpts { intercept: true, class: "intercepted", ..Default::default() },
 						None => SendOpts { min_value: Some(amt), class: "exact-registered-amount", ..Default::default() },
 					},
 				};
